@@ -10,6 +10,7 @@ pub mod c09;
 pub mod c10;
 pub mod c16;
 pub mod c17;
+pub mod c18;
 
 /// Print the reference model's and the real parser's view of one case (used by `replay`).
 pub fn show_case(g: &crate::gram::G, input: &[char]) {
